@@ -7,7 +7,7 @@ use crate::sut::{self, BuildErr, SutErr};
 use crate::with_d;
 use std::time::Instant;
 
-pub const RULE: &str = "cases = accepted connected graphs with D=1..6, L=1..5 (so D*L covers odd and even values), points whose Box-Muller coordinates a in (0,1) include 1e-300, 2^-53, 1-2^-53 and b in [0,1) includes 0, 1/8, 1/4, 1/2, 3/4, 1-2^-53. oracle: component n=l*D+i of the metadata q_vectors equals sqrt(-2 ln a_j) cos(2 pi b_j) (n even) or sin (n odd) with j = n div 2 and the pair at coordinates 2E-1+2j, 2E+2j; absolute tolerance 2e-14*r; for odd D*L the last sine is unused. supplementary statistical stage: for 10 (D,L) configurations the sample mean, variance and every pairwise covariance of the D*L Gaussian components over 2e5 (thorough 2e6) uniform points must agree with N(0,1) independent components within 6.5 standard errors. non-trivial = D*L odd or L>=2; distinct = distinct case encodings";
+pub const RULE: &str = "(every case is evaluated with f64 and with a user scalar type that implements only the required trait methods) cases = accepted connected graphs with D=1..6, L=1..5 (so D*L covers odd and even values), points whose Box-Muller coordinates a in (0,1) include 1e-300, 2^-53, 1-2^-53 and b in [0,1) includes 0, 1/8, 1/4, 1/2, 3/4, 1-2^-53. oracle: component n=l*D+i of the metadata q_vectors equals sqrt(-2 ln a_j) cos(2 pi b_j) (n even) or sin (n odd) with j = n div 2 and the pair at coordinates 2E-1+2j, 2E+2j; absolute tolerance 2e-14*r; for odd D*L the last sine is unused. supplementary statistical stage: for 10 (D,L) configurations the sample mean, variance and every pairwise covariance of the D*L Gaussian components over 2e5 (thorough 2e6) uniform points must agree with N(0,1) independent components within 6.5 standard errors. non-trivial = D*L odd or L>=2; distinct = distinct case encodings";
 
 pub fn gen_case(t: &mut Tape, tier: Tier) -> Option<Phys> {
     let opts = PhysOpts { max_e: tier.pick(8, 9), max_l: 8, min_omega: 0.15, dmax: 6, max_ops: 1, profile: gen::PointProfile { u_w: [0.6, 0.4, 0.0, 0.0], xi_w: [0.3, 0.0, 0.58, 0.12], lambda_tail: 0.0, bm_extreme: 0.35 } };
@@ -61,6 +61,35 @@ fn check_d<const D: usize>(c: &Phys, ctx: &mut Ctx) -> Result<(), Failure> {
             if !(err <= tol) {
                 fail!("box-muller", "q[{l}][{i}] = {:e} but Box-Muller of coordinates ({}, {}) = (a={a:e}, b={b:e}) gives {want:e} (component n={n}, pair {jp}); case {c:?}", md.q[l][i], base + 2 * jp, base + 2 * jp + 1);
             }
+        }
+    }
+    // the same statement for user scalar types that implement only the required methods of MomTropFloat (the
+    // dependency-tracking scalar, which computes in f64, and the double-double scalar): cosine first, sine second
+    {
+        let run = super::c14::run_tracked::<D>(&s, c, c.x.len(), &[], None);
+        if let Ok(r) = &run.res {
+            let Some(md) = r.metadata.as_ref() else { fail!("no-metadata", "no metadata (user scalar)") };
+            if md.q_vectors.len() != nl {
+                fail!("q-shape", "user scalar: {} Gaussian vectors for {nl} loops", md.q_vectors.len());
+            }
+            for l in 0..nl {
+                for i in 0..D {
+                    let n = l * D + i;
+                    let jp = n / 2;
+                    let (a, b) = (c.x[base + 2 * jp], c.x[base + 2 * jp + 1]);
+                    let r_ = (-2.0 * a.ln()).sqrt();
+                    let th = 2.0 * std::f64::consts::PI * b;
+                    let want = if n % 2 == 0 { r_ * th.cos() } else { r_ * th.sin() };
+                    let tol = 2e-14 * r_ + 4.0 * EPS * want.abs();
+                    let got = md.q_vectors[l][i].v;
+                    if !((got - want).abs() <= tol) {
+                        fail!("box-muller-user-scalar", "with a user scalar type (f64 arithmetic, only the required trait methods implemented) q[{l}][{i}] = {got:e} but Box-Muller of coordinates ({}, {}) gives {want:e} (component n={n}); case {c:?}", base + 2 * jp, base + 2 * jp + 1);
+                    }
+                }
+            }
+            ctx.label("user-scalar:checked");
+        } else if let Err(SutErr::Panic(m)) = &run.res {
+            fail!("sample-panic", "sampling with a user scalar panicked: {m}; case {c:?}");
         }
     }
     ctx.count("components_checked", (nl * D) as u64);
